@@ -105,6 +105,9 @@ Second deepening round (2026-09-26):
   * C12_no_self_nesting: a scope is a finite tree (nested nodes strictly smaller).  A self-nested Graph object can
     be built through the API but has no serialised form and is outside the quantifier; RecursionError, nothing
     re-linked (probe_wf_breakers).
+Round 6 (seeded r6m2: the cycle error message joined node names -> TypeError for an anonymous node): 12% of the
+  generated nodes get name None through the public setter after construction (node["anon"]), in cyclic and acyclic
+  cases, main graph and bodies; model and oracle ignore names (ValueError iff cyclic).
 Modelled, not verified: heapq (contract only), DoublyLinkedSet internals (C11), node.graph bookkeeping
   and name authority (C01), dict/set iteration order (independent per-graph relinking).
 Finding, fixed in /repo by 86f4e6a (known_findings.d/C12.json, status "fixed"): a GRAPH/GRAPHS-typed
@@ -533,6 +536,8 @@ def _gen_tree(rng, depth: int, budget: list, ids: list, gids: list, maxdepth: in
             break
         budget[0] -= 1
         node = {"id": ids[0], "ins": [], "nout": rng.choice([1, 1, 1, 2, 3]), "attrs": []}
+        if rng.random() < 0.12:
+            node["anon"] = True
         if rng.random() < 0.2:
             node["const"] = sorted(set(rng.randrange(node["nout"]) for _ in range(rng.choice([1, 1, 2]))))
         ids[0] += 1
@@ -708,6 +713,10 @@ def build(case: dict):
         return gr
 
     roots = [mk_graph(u, 0) for u in case["units"]]
+    anon = {n["id"] for n in all_nodes if n.get("anon")}
+    for obj in keep:
+        if isinstance(obj, ir.Node) and ids.get(id(obj)) in anon:
+            obj.name = None          # anonymous node (public setter); must be irrelevant to the sort and its errors
     return roots, graphs, ids, (keep, values)
 
 
@@ -1258,6 +1267,12 @@ def shrink(case: dict, fails) -> dict:
                         changed = True
                     else:
                         n["const"] = old_c
+                if n.get("anon"):
+                    n.pop("anon")
+                    if fails(cur):
+                        changed = True
+                    else:
+                        n["anon"] = True
         if cur.get("journal"):
             c2 = dict(cur)
             c2.pop("journal")
@@ -1352,6 +1367,8 @@ def features(ck, case: dict, obs: dict) -> None:
                         if ga == gp and ip > ia:
                             captured_after += 1
     ck.hist("nesting_depth", str(depth))
+    if any(n.get("anon") for u in case["units"] for n in walk_nodes(u)):
+        ck.hist("features", "anonymous_node(name=None)" + ("_and_cycle" if obs["outcome"] != "ok" else ""))
     cids = {(n["id"], k) for u in case["units"] for n in walk_nodes(u) for k in n.get("const", [])}
     if any(r is not None and tuple(r) in cids for u in case["units"] for n in walk_nodes(u) for r in n["ins"]):
         ck.hist("features", "consumed_value_has_const_value")
